@@ -7,8 +7,15 @@ Tie:      API level: groupby aggregations on random frames / partitionings / spl
           shuffle_method / sort vs the Lean model (exact, integer-valued data) and vs pandas; list/dict/named
           aggregations, several keys, index and series keys, NA and categorical keys, nunique/idxmin/idxmax/
           var/std/cov/corr, cumulative ops, transform/shift/ffill/bfill, value_counts vs pandas.
+
+Known findings: every signature below is COMPUTED from the input class and the observed symptom, and the symptom is
+verified against an executable description of the defect (e.g. "the result is pandas' result with every category
+repeated once per output partition"); whatever does not match such a description is reported without a signature,
+i.e. as a fresh violation.
 """
 from __future__ import annotations
+
+import math
 
 from sexp import Sym
 
@@ -38,6 +45,18 @@ LEVEL_NOTE = ("Trusted: Lean kernel + standard axioms; pandas groupby kernels; f
 TECHNIQUE = "Lean 4 proof (keyed monoid homomorphism, tree = flat) + differential correspondence against the model and pandas"
 
 AGGS = ["sum", "count", "size", "min", "max", "first", "last", "mean", "var"]
+
+# ---- signatures of the recorded findings (one per root cause) -------------------------------------------------------
+SIG_DISK = "groupby:order-sensitive-op:shuffle_method=disk:rows-of-a-group-in-arrival-order"
+SIG_IDX_FIRST = "groupby:idxmin|idxmax:group-spans-partitions:first-partial-wins"
+SIG_IDX_NA = "groupby:idxmin|idxmax:group-all-NA-within-one-partition:ValueError"
+SIG_DROPNA_NONE = "groupby:mean|var|std:dropna-not-given:NaN-key-group-kept"
+SIG_NUNIQUE_OBS = "groupby:nunique:categorical-key:observed=False:unobserved-category-missing"
+SIG_OBS_DUP = "groupby:categorical-key:observed=False:several-output-partitions:every-category-once-per-partition"
+SIG_TRANSFORM_NAN = "groupby:transform(callable):NaN-keys-dropped:partition-with-only-NaN-keys:rows-missing"
+SIG_COV_TUPLE = "groupby:cov|corr:single-partition-or-split_out>1:chunk-is-a-tuple:ValueError-meta"
+SIG_COV_NOGROUP = "groupby:cov|corr:no-group-at-all:AttributeError-levels"
+SIG_COV_PAIRWISE = "groupby:cov|corr:missing-values:not-pairwise-complete"
 
 
 def _mkdf(inp):
@@ -82,12 +101,148 @@ def _gbkw(inp):
     return kw
 
 
-def _order_sensitive_disk(inp, agg):
+def _multi_out(inp):
     so = inp.get("split_out")
-    # shuffle_method=None resolves to "disk" on the local schedulers (get_default_shuffle_method)
-    multi = so is True or (isinstance(so, int) and not isinstance(so, bool) and so > 1)
-    return agg in ("first", "last") and inp.get("method") in (None, "disk") and multi
+    return so is True or (isinstance(so, int) and not isinstance(so, bool) and so > 1)
 
+
+def _order_sensitive_disk(inp, agg):
+    # shuffle_method=None resolves to "disk" on the local schedulers (get_default_shuffle_method)
+    return agg in ("first", "last") and inp.get("method") in (None, "disk") and _multi_out(inp) and len(inp["cuts"]) > 2
+
+
+def _same(got, exp):
+    """U.same_pandas that reports an unsortable (mixed label) index as a difference instead of raising"""
+    try:
+        return U.same_pandas(got, exp, names=False)   # result / index *names* are metadata (C42)
+    except TypeError as e:
+        return "index labels of mixed types: " + str(e)[:120]
+
+
+# ---- executable descriptions of the recorded defects -----------------------------------------------------------------
+
+def _close(x, y):
+    if x is None or y is None:
+        return x is y
+    try:
+        x, y = float(x), float(y)
+    except (TypeError, ValueError):
+        return x == y
+    if x != x or y != y:
+        return x != x and y != y
+    if math.isinf(x) or math.isinf(y):
+        return x == y
+    return abs(x - y) <= 1e-9 * max(1.0, abs(y))
+
+
+def _rows(x, key):
+    """the rows of a Series/DataFrame labelled `key`, each as a tuple of cells"""
+    import pandas as pd
+    sel = x[[k == key or (k != k and key != key) for k in x.index]]
+    if isinstance(sel, pd.Series):
+        return [(v,) for v in sel.tolist()]
+    return [tuple(r) for r in sel.itertuples(index=False)]
+
+
+def _row_close(r, s):
+    return len(r) == len(s) and all(_close(a, b) for a, b in zip(r, s))
+
+
+def _is_every_category_per_partition(got, exp, df):
+    """`got` is pandas' result `exp` (one row per category, observed=False) in which every category occurs m > 1 times:
+    once with its value and m-1 times with the value an unobserved category gets"""
+    import pandas as pd
+    if type(got) is not type(exp) or len(exp) == 0 or len(got) <= len(exp) or len(got) % len(exp):
+        return False
+    if isinstance(exp.index, pd.MultiIndex) or isinstance(got.index, pd.MultiIndex):
+        return False
+    m = len(got) // len(exp)
+    cats = list(df["c"].cat.categories)
+    observed = set(df["c"].tolist())
+    unobserved = [c for c in cats if c not in observed]
+    if not unobserved or sorted(map(str, exp.index)) != sorted(map(str, cats)):
+        return False
+    filler = _rows(exp, unobserved[0])[0]
+    for cat in cats:
+        rows, want = _rows(got, cat), _rows(exp, cat)[0]
+        if len(rows) != m:
+            return False
+        hit = [i for i, r in enumerate(rows) if _row_close(r, want)]
+        if not hit:
+            return False
+        rest = rows[:hit[0]] + rows[hit[0] + 1:]
+        if not all(_row_close(r, filler) for r in rest):
+            return False
+    return True
+
+
+def _nan_key_group_kept(got, exp):
+    """`got` is `exp` plus exactly one extra row: the group of the NaN key"""
+    try:
+        nan_rows = [k for k in got.index if k != k]
+    except TypeError:
+        return False
+    if len(nan_rows) != 1 or len(got) != len(exp) + 1:
+        return False
+    return _same(got[[k == k for k in got.index]], exp) is None
+
+
+def _cov_defect_model(df, gkw, op, exp):
+    """what dask's cov/corr computes: per-column sums and counts (NaN skipped column by column), products summed over the
+    rows where both are present, n = sqrt(n_i * n_j) — equal to pandas only when no value is missing"""
+    import numpy as np
+    cols = ["a", "b"]
+    out = {}
+    with np.errstate(all="ignore"):
+        for key, g in df.groupby("c", **gkw):
+            g = g[cols]
+            cnt = {c: np.float64(g[c].count()) for c in cols}
+            s = {c: np.float64(g[c].sum()) for c in cols}
+            prod = {(i, j): np.float64((g[i] * g[j]).sum()) for i in cols for j in cols}
+            for i in cols:
+                row = []
+                for j in cols:
+                    n = np.sqrt(cnt[i] * cnt[j])
+                    div = np.float64(max(n - 1.0, 0.0))
+                    val = (prod[(i, j)] - s[i] * s[j] / n) / div
+                    if op == "corr":
+                        vi = (prod[(i, i)] - s[i] ** 2 / cnt[i]) / div
+                        vj = (prod[(j, j)] - s[j] ** 2 / cnt[j]) / div
+                        sq = np.sqrt(vi * vj)
+                        val = np.nan if sq == 0 else val / sq
+                    row.append(val)
+                out[(_keyname(key), i)] = row
+    # same labels (and label types) as pandas' result
+    if len(out) != len(exp) or list(exp.columns) != cols or any((_keyname(k), i) not in out for k, i in exp.index):
+        return None
+    model = exp.copy()
+    for pos, (k, i) in enumerate(exp.index):
+        model.iloc[pos] = out[(_keyname(k), i)]
+    return model
+
+
+def _partition_labels(df, cuts, op, col, gkw):
+    """group -> [label that `op` (idxmin/idxmax) gives inside partition p, for every partition p holding non-NA values of
+    the group, in partition order]"""
+    labels = {}
+    kw = {k: v for k, v in gkw.items() if k != "sort"}
+    for a, b in zip(cuts, cuts[1:]):
+        part = df.iloc[a:b]
+        part = part[part[col].notna()]
+        if len(part) == 0:
+            continue
+        for key, lab in getattr(part.groupby("c", **kw)[col], op)().items():
+            if lab == lab:
+                labels.setdefault(_keyname(key), []).append(lab)
+    return labels
+
+
+def _keyname(k):
+    """group key usable in a dict / set (NaN keys compare unequal to themselves)"""
+    return "NaN" if k != k else str(k)
+
+
+# ---- sections ---------------------------------------------------------------------------------------------------------
 
 def case_agg_model(ctx, inp):
     """one aggregation of SeriesGroupBy `a` by the int key `c`: dask vs Lean model (exact) vs pandas"""
@@ -98,17 +253,24 @@ def case_agg_model(ctx, inp):
     agg = inp["agg"]
     kw = _kw(inp)
     gkw = _gbkw(inp)
-    try:
+
+    def run(kw):
         with dask.config.set(scheduler="sync"):
             gb = d.groupby("c", **gkw)
-            got = (gb.size(**kw) if agg == "size" else getattr(gb.a, agg)(**kw)).compute()
+            return (gb.size(**kw) if agg == "size" else getattr(gb.a, agg)(**kw)).compute()
+    try:
+        got = run(kw)
     except Exception as e:  # noqa: BLE001
         ctx.fail(f"groupby.{agg} raised: " + U.exc_name(e), observed=U.exc_name(e))
         return
     pgb = df.groupby("c", **gkw)
     exp = pgb.size() if agg == "size" else getattr(pgb.a, agg)()
-    sig = "groupby:first|last:split_out>1:shuffle_method=disk:arrival-order" if _order_sensitive_disk(inp, agg) else None
-    why = U.same_pandas(got, exp, names=False)   # result / index *names* are metadata (C42)
+    why = _same(got, exp)
+    sig = None
+    if why and _order_sensitive_disk(inp, agg):
+        # known finding iff the same call with the order-preserving task shuffle is right
+        if _same(run({**kw, "shuffle_method": "tasks"}), exp) is None:
+            sig = SIG_DISK
     if why:
         ctx.fail(f"groupby('c').a.{agg}() differs from pandas: {why}", sig=sig,
                  observed=got.sort_index().to_dict(), expected=exp.sort_index().to_dict())
@@ -144,6 +306,48 @@ def case_agg_model(ctx, inp):
         ctx.branch("multi-partition")
 
 
+def case_agg_keys(ctx, inp):
+    """one aggregation by a str / categorical (observed) / NaN-holding (dropna) key: dask vs pandas"""
+    import dask
+    df = _mkdf(inp)
+    d = U.frame_from_cuts(df, inp["cuts"])
+    agg = inp["agg"]
+    kw = _kw(inp)
+    gkw = _gbkw(inp)
+
+    def run(kw):
+        with dask.config.set(scheduler="sync"):
+            gb = d.groupby("c", **gkw)
+            return (gb.size(**kw) if agg == "size" else getattr(gb.a, agg)(**kw)).compute()
+    try:
+        got = run(kw)
+    except Exception as e:  # noqa: BLE001
+        ctx.fail(f"groupby.{agg} raised: " + U.exc_name(e), observed=U.exc_name(e))
+        return
+    pgb = df.groupby("c", **gkw)
+    exp = pgb.size() if agg == "size" else getattr(pgb.a, agg)()
+    why = _same(got, exp)
+    if why:
+        sig = None
+        kk = inp.get("keykind")
+        got2 = got
+        if _order_sensitive_disk(inp, agg):
+            # first/last after the disk shuffle: known finding iff the task shuffle is right
+            got2 = run({**kw, "shuffle_method": "tasks"})
+            if _same(got2, exp) is None:
+                sig = SIG_DISK
+        if sig is None and kk == "cat" and inp.get("observed") is False and _is_every_category_per_partition(got2, exp, df):
+            sig = SIG_OBS_DUP       # (judged on the task-shuffle result when the disk shuffle also permuted the partials)
+        elif (sig is None and kk == "nakey" and 0 in inp["c"] and inp.get("dropna") is None and agg in ("mean", "var", "std")
+              and _nan_key_group_kept(got, exp)):
+            sig = SIG_DROPNA_NONE
+        ctx.fail(f"groupby('c').a.{agg}() differs from pandas: {why}", sig=sig, observed=str(got)[:300], expected=str(exp)[:300])
+    ctx.branch(f"keys-{agg}-{inp.get('keykind')}")
+    ctx.branch(f"keys-{inp.get('keykind')}-" + ("observed=%s" % inp.get("observed") if inp.get("keykind") == "cat"
+                                                 else "dropna=%s" % inp.get("dropna") if inp.get("keykind") == "nakey" else "plain")
+               + ("-multi-out" if _multi_out(inp) else ""))
+
+
 def case_agg_spec(ctx, inp):
     """list / dict / named aggregation specs, several keys, index or series as key: vs pandas"""
     import dask
@@ -161,64 +365,51 @@ def case_agg_spec(ctx, inp):
         if by == "series":
             return frame.c2 + 1
         return by
-    aggs = set()
-    try:
+
+    def run(kw):
         with dask.config.set(scheduler="sync"):
             gb = d.groupby(key(d), **gkw)
             pgb = df.groupby(key(df), **gkw)
             if spec["kind"] == "list":
-                got, exp = gb.a.agg(spec["fns"], **kw).compute(), pgb.a.agg(spec["fns"])
-                aggs = set(spec["fns"])
-            elif spec["kind"] == "dict":
-                got, exp = gb.agg(spec["map"], **kw).compute(), pgb.agg(spec["map"])
-                aggs = {f for v in spec["map"].values() for f in ([v] if isinstance(v, str) else v)}
-            elif spec["kind"] == "named":
+                return gb.a.agg(spec["fns"], **kw).compute(), pgb.a.agg(spec["fns"]), set(spec["fns"])
+            if spec["kind"] == "dict":
+                return (gb.agg(spec["map"], **kw).compute(), pgb.agg(spec["map"]),
+                        {f for v in spec["map"].values() for f in ([v] if isinstance(v, str) else v)})
+            if spec["kind"] == "named":
                 named = {k: pd.NamedAgg(column=c, aggfunc=f) for k, (c, f) in spec["named"].items()}
-                got, exp = gb.agg(**named, **kw).compute(), pgb.agg(**named)
-                aggs = {f for _, f in spec["named"].values()}
-            else:
-                got, exp = gb[["a", "b"]].agg(spec["fn"], **kw).compute(), pgb[["a", "b"]].agg(spec["fn"])
-                aggs = {spec["fn"]}
+                return gb.agg(**named, **kw).compute(), pgb.agg(**named), {f for _, f in spec["named"].values()}
+            return gb[["a", "b"]].agg(spec["fn"], **kw).compute(), pgb[["a", "b"]].agg(spec["fn"]), {spec["fn"]}
+    try:
+        got, exp, aggs = run(kw)
     except Exception as e:  # noqa: BLE001
         ctx.fail("groupby.agg raised: " + U.exc_name(e), observed=[spec, U.exc_name(e)])
         return
-    sig = ("groupby:first|last:split_out>1:shuffle_method=disk:arrival-order"
-           if (aggs & {"first", "last"}) and _order_sensitive_disk(inp, "first") else None)
-    why = U.same_pandas(got, exp, names=False)
+    why = _same(got, exp)
     if why:
+        sig = None
+        if (aggs & {"first", "last"}) and _order_sensitive_disk(inp, "first"):
+            got2, _, _ = run({**kw, "shuffle_method": "tasks"})
+            if _same(got2, exp) is None:
+                sig = SIG_DISK
         ctx.fail(f"groupby.agg({spec}) differs from pandas: {why}", sig=sig, observed=str(got)[:300], expected=str(exp)[:300])
     ctx.branch(f"spec-{spec['kind']}-by-{by if isinstance(by, str) else 'multi'}")
 
 
 ORDER_OPS = ("shift", "ffill", "bfill", "apply_first")
+SHUFFLE_OPS = ORDER_OPS + ("transform", "transform_fn", "apply")
+IDX_OPS = ("idxmin", "idxmax", "idxmin_a", "idxmax_a")
 
 
-def _exotic(inp):
-    """key configurations in which dask's groupby has many separately recorded defects"""
-    if inp.get("keykind") == "cat" and inp.get("observed") is False:
-        return "categorical-key:observed=False"
-    if inp.get("keykind") == "nakey" and 0 in inp["c"]:
-        return "NaN-key:dropna=%s" % inp.get("dropna")
-    return None
-
-
-def _auto_sig(inp, op, symptom):
-    ex = _exotic(inp)
-    return f"groupby:{op}:{ex}:{symptom}" if ex else None
+def _center(s):
+    return s - s.mean()
 
 
 def _run_misc(d, df, op, inp, kw, gkw, method=None):
-    """(dask result, pandas result, compare-sorted?) for one operation"""
+    """(dask result, pandas result) for one operation"""
     gb, pgb = d.groupby("c", **gkw), df.groupby("c", **gkw)
     mk = {"shuffle_method": method} if method else {}
     if op == "nunique":
         return gb.a.nunique(**kw).compute(), pgb.a.nunique()
-    if op in ("idxmin", "idxmax"):
-        got, exp = getattr(gb.b, op)(**kw).compute(), getattr(pgb.b, op)()
-        # ties: only the extreme *value* per group is determined
-        got = df.b.loc[got.dropna()].sort_values().reset_index(drop=True)
-        exp = df.b.loc[exp.dropna()].sort_values().reset_index(drop=True)
-        return got, exp
     if op == "std":
         return gb.a.std(**kw).compute(), pgb.a.std()
     if op in ("cov", "corr"):
@@ -229,6 +420,8 @@ def _run_misc(d, df, op, inp, kw, gkw, method=None):
         return getattr(gb.a, op)().compute(), getattr(pgb.a, op)()
     if op == "transform":
         return gb.a.transform("sum", meta=("a", "f8"), **mk).compute(), pgb.a.transform("sum")
+    if op == "transform_fn":
+        return gb.a.transform(_center, meta=("a", "f8"), **mk).compute(), pgb.a.transform(_center)
     if op == "shift":
         per = inp.get("periods", 1)
         return gb.a.shift(per, meta=("a", "f8"), **mk).compute(), pgb.a.shift(per)
@@ -245,76 +438,120 @@ def _run_misc(d, df, op, inp, kw, gkw, method=None):
     raise ValueError(op)
 
 
+def _case_idx(ctx, inp, d, df, op, kw, gkw):
+    """idxmin / idxmax of column b (no missing values) or a (missing values): the label of a row holding the extreme"""
+    import dask
+    col = "a" if op.endswith("_a") else "b"
+    fn = op[:6]
+    try:
+        exp = getattr(df.groupby("c", **gkw)[col], fn)()
+    except ValueError:
+        ctx.branch("pandas-rejects-" + fn)     # a group without any value: pandas raises, nothing to compare
+        return
+    cuts = inp["cuts"]
+    try:
+        with dask.config.set(scheduler="sync"):
+            got = getattr(d.groupby("c", **gkw)[col], fn)(**kw).compute()
+    except Exception as e:  # noqa: BLE001
+        sig = None
+        if isinstance(e, ValueError) and "encountered all NA values" in str(e) and col == "a":
+            # pandas does not raise on the whole frame (checked above); the chunk raises when a group has only
+            # missing values inside one partition
+            for a, b in zip(cuts, cuts[1:]):
+                part = df.iloc[a:b]
+                part = part[part["c"].notna()] if gkw.get("dropna", True) is not False else part
+                if len(part) and (part.groupby("c", dropna=False, observed=True)[col].count() == 0).any():
+                    sig = SIG_IDX_NA
+        ctx.fail(f"groupby {fn}({col}) raised: " + U.exc_name(e), sig=sig, observed=U.exc_name(e))
+        return
+    # ties: only the extreme *value* per group is determined
+    gv = df[col].loc[got.dropna()].sort_values().reset_index(drop=True)
+    ev = df[col].loc[exp.dropna()].sort_values().reset_index(drop=True)
+    why = _same(gv, ev) or (None if sorted(map(_keyname, got.index)) == sorted(map(_keyname, exp.index)) else "different groups")
+    if why:
+        sig = None
+        labels = _partition_labels(df, cuts, fn, col, gkw)
+        spans = any(len(v) > 1 for v in labels.values())
+        picked = {_keyname(k): v for k, v in got.items() if v == v}
+        # SeriesGroupBy.idxmin/idxmax do not pass shuffle_method on: with split_out > 1 the default (disk) shuffle decides
+        # which partial comes first
+        ordered = not _multi_out(inp)
+        if spans and set(picked) == set(labels) and all(
+                (lab == labels[k][0]) if ordered else (lab in labels[k]) for k, lab in picked.items()):
+            sig = SIG_IDX_FIRST
+        ctx.fail(f"groupby {fn}({col}) differs from pandas: {why}", sig=sig, observed=got.to_dict(), expected=exp.to_dict())
+    ctx.branch(f"misc-{op}-{inp.get('keykind', 'int')}")
+
+
 def case_misc(ctx, inp):
     """other groupby operations vs pandas"""
     import dask
     df = _mkdf(inp)
-    d = U.frame_from_cuts(df, inp["cuts"])
+    cuts = inp["cuts"]
+    d = U.frame_from_cuts(df, cuts)
     op = inp["op"]
-    kw = _kw(inp) if op in ("nunique", "std", "cov", "corr", "value_counts", "idxmin", "idxmax", "median") else {}
+    kw = _kw(inp) if op in ("nunique", "std", "cov", "corr", "value_counts", "median") + IDX_OPS else {}
     gkw = _gbkw(inp)
-    method = inp.get("method") if op in ORDER_OPS + ("transform", "apply") else None
+    if op in IDX_OPS:
+        return _case_idx(ctx, inp, d, df, op, kw, gkw)
+    method = inp.get("method") if op in SHUFFLE_OPS else None
+    kk = inp.get("keykind", "int")
+    cat_unobserved = kk == "cat" and inp.get("observed") is False
+    nakey = kk == "nakey" and 0 in inp["c"]
     try:
-        try:
-            _probe = {"idxmin": lambda: df.groupby("c", **gkw).b.idxmin(), "idxmax": lambda: df.groupby("c", **gkw).b.idxmax()}.get(op)
-            if _probe:
-                _probe()
-        except ValueError:
-            ctx.branch("pandas-rejects-" + op)
-            return
         with dask.config.set(scheduler="sync"):
             got, exp = _run_misc(d, df, op, inp, kw, gkw, method)
-            why = U.same_pandas(got, exp, names=False)
-            sig = None
-            if why and op in ORDER_OPS and method in (None, "disk") and len(inp["cuts"]) > 2:
+    except Exception as e:  # noqa: BLE001
+        sig = None
+        msg = str(e)
+        if op in ("cov", "corr"):
+            if (isinstance(e, ValueError) and "Expected iterable of tuples of (name, dtype)" in msg
+                    and (_multi_out(inp) or len(cuts) == 2)):
+                sig = SIG_COV_TUPLE
+            elif (isinstance(e, AttributeError) and "levels" in msg and kk == "nakey" and set(inp["c"]) == {0}
+                  and inp.get("dropna") is not False):
+                sig = SIG_COV_NOGROUP
+        ctx.fail(f"groupby {op} raised: " + U.exc_name(e), sig=sig, observed=U.exc_name(e))
+        return
+    why = _same(got, exp)
+    if why:
+        sig = None
+        with dask.config.set(scheduler="sync"):
+            got2 = got
+            if op in ORDER_OPS and method in (None, "disk") and len(cuts) > 2:
                 # order-dependent per-group function after the disk shuffle: known finding iff the task shuffle is right
                 got2, _ = _run_misc(d, df, op, inp, kw, gkw, "tasks")
-                if U.same_pandas(got2, exp, names=False) is None:
-                    sig = "groupby:order-dependent-per-group-op:shuffle_method=disk:arrival-order"
-    except Exception as e:  # noqa: BLE001
-        so = inp.get("split_out")
-        multi = so is True or (isinstance(so, int) and not isinstance(so, bool) and so > 1)
-        del multi
-        empty = any(a == b for a, b in zip(inp["cuts"], inp["cuts"][1:]))
-        sig = None
-        if op in ("cov", "corr") and isinstance(e, ValueError) and "Expected iterable of tuples" in str(e):
-            sig = "groupby:cov|corr:split_out>1:ValueError-meta"
-        elif op in ("cov", "corr") and empty and isinstance(e, ValueError) and "duplicate labels" in str(e):
-            sig = "groupby:cov|corr:empty-partition:ValueError-duplicate-labels"
-        elif op == "value_counts" and empty and isinstance(e, AttributeError) and "levels" in str(e):
-            sig = "groupby:value_counts:empty-partition:AttributeError-levels"
-        elif op in ("cov", "corr") and inp.get("keykind") == "nakey" and set(inp["c"]) == {0} and isinstance(e, AttributeError) and "levels" in str(e):
-            sig = "groupby:cov|corr:all-keys-NaN:dropna=False:AttributeError-levels"
-        elif op == "transform" and inp.get("keykind") == "cat" and inp.get("observed") is False and isinstance(e, TypeError) and "'str' and 'int'" in str(e):
-            sig = "groupby:transform:categorical-key:observed=False:TypeError-str-int"
-        elif op == "value_counts" and isinstance(e, KeyError) and "dtype mappings" in str(e) and inp.get("split_out") not in (None, 1):
-            sig = "groupby:value_counts:split_out>1:KeyError-dtype-mapping"
-        ctx.fail(f"groupby {op} raised: " + U.exc_name(e), sig=sig or _auto_sig(inp, op, "raises-" + type(e).__name__),
-                 observed=U.exc_name(e))
-        return
-    if why:
-        if op in ("idxmin", "idxmax") and len(inp["cuts"]) > 2:
-            sig = "groupby:idxmin|idxmax:group-spans-partitions:first-partial-wins"
-        if op in ("cov", "corr") and any(v is None for v in inp["a"]):
-            sig = "groupby:cov|corr:missing-values:not-pairwise-complete"
-        if (inp.get("keykind") == "cat" and inp.get("observed") is False and len(inp["cuts"]) > 2
-                and op in ("median", "apply", "apply_first", "transform", "shift", "ffill", "bfill") and len(got) > len(exp)):
-            sig = "groupby:shuffle-apply-family:categorical-key:observed=False:every-category-emitted-per-partition"
-        if inp.get("keykind") == "cat" and inp.get("observed") is False and op == "nunique" and len(got) < len(exp):
-            sig = "groupby:nunique:categorical-key:observed=False:unobserved-category-missing"
-        nakey = inp.get("keykind") == "nakey" and 0 in inp["c"]
-        if nakey and op == "std" and inp.get("dropna") is None and len(got) == len(exp) + 1:
-            sig = "groupby:mean|var|std:dropna-not-given:NaN-key-group-kept"
-        if nakey and op == "nunique" and inp.get("dropna") is False and len(got) + 1 == len(exp):
-            sig = "groupby:nunique:dropna=False:NaN-key-group-dropped"
-        if sig is None:
-            sym = "extra-groups" if len(got) > len(exp) else "missing-groups" if len(got) < len(exp) else "values"
-            sig = _auto_sig(inp, op, sym)
+                if _same(got2, exp) is None:
+                    sig = SIG_DISK
+        if sig is None and cat_unobserved and op in ("std", "median", "apply", "apply_first") \
+                and _is_every_category_per_partition(got2, exp, df):
+            sig = SIG_OBS_DUP       # (judged on the task-shuffle result when the disk shuffle also permuted the rows)
+        if sig is None and cat_unobserved and op == "nunique":
+            seen = set(df["c"].tolist())
+            if len(got) < len(exp) and _same(got, exp[[k in seen for k in exp.index]]) is None:
+                sig = SIG_NUNIQUE_OBS
+        if sig is None and nakey and op == "std" and inp.get("dropna") is None and _nan_key_group_kept(got, exp):
+            sig = SIG_DROPNA_NONE
+        if sig is None and nakey and op == "transform_fn" and inp.get("dropna") is not False and len(got) < len(exp):
+            # pandas' transform(callable) returns nothing for a partition in which every key is NaN (the shuffle sends all
+            # NaN keys to one partition); on the whole frame those rows are kept with NaN
+            if _same(got, exp[df["c"].notna()]) is None:
+                sig = SIG_TRANSFORM_NAN
+        if sig is None and op in ("cov", "corr") and any(v is None for v in inp["a"]):
+            model = _cov_defect_model(df, {k: v for k, v in gkw.items() if k != "sort"}, op, exp)
+            if model is not None and _same(got, model) is None:
+                sig = SIG_COV_PAIRWISE
         ctx.fail(f"groupby {op} differs from pandas: {why}", sig=sig, observed=str(got)[:300], expected=str(exp)[:300])
-    ctx.branch(f"misc-{op}-{inp.get('keykind', 'int')}" + (f"-{method}" if method else ""))
+    ctx.branch(f"misc-{op}-{kk}" + (f"-{method}" if method else ""))
+    if any(a == b for a, b in zip(cuts, cuts[1:])):
+        ctx.branch(f"misc-{op}-empty-partition")
+    if nakey:
+        ctx.branch(f"misc-{op}-nan-key-dropna={inp.get('dropna')}")
+    if cat_unobserved:
+        ctx.branch(f"misc-{op}-observed=False")
 
 
-CASES = {"agg_model": case_agg_model, "agg_spec": case_agg_spec, "misc": case_misc}
+CASES = {"agg_model": case_agg_model, "agg_keys": case_agg_keys, "agg_spec": case_agg_spec, "misc": case_misc}
 
 
 def _rand_frame(rng, keykind="int"):
@@ -333,12 +570,35 @@ def _rand_cfg(rng, inp):
     return inp
 
 
-def generate(ctx):
+MISC_OPS = ["nunique", "idxmin", "idxmax", "idxmin_a", "idxmax_a", "std", "cov", "corr", "value_counts", "cumsum", "cumprod",
+            "cumcount", "transform", "transform_fn", "shift", "ffill", "bfill", "apply", "apply_first", "median"]
+
+
+def _gen_agg_model(ctx):
     rng = ctx.rng
-    for _ in range(ctx.n(220, 2200)):
+    for _ in range(ctx.n(200, 2000)):
         inp = _rand_cfg(rng, _rand_frame(rng))
         inp["agg"] = rng.choice(AGGS)
         yield "agg_model", inp
+
+
+def _gen_agg_keys(ctx):
+    rng = ctx.rng
+    for _ in range(ctx.n(60, 600)):
+        kk = rng.choice(["str", "cat", "cat", "nakey", "nakey"])
+        inp = _rand_cfg(rng, _rand_frame(rng, kk))
+        inp["agg"] = rng.choice(AGGS + ["std", "prod"])
+        if kk == "cat":
+            inp["observed"] = rng.choice([True, False])
+        if kk == "nakey":
+            inp["dropna"] = rng.choice([True, False, None])
+        if inp["agg"] in ("first", "last") and inp["sort"]:
+            inp["sort"] = None          # first(sort=True) is a documented NotImplementedError
+        yield "agg_keys", inp
+
+
+def _gen_agg_spec(ctx):
+    rng = ctx.rng
     for _ in range(ctx.n(60, 600)):
         inp = _rand_cfg(rng, _rand_frame(rng, rng.choice(["int", "int", "str"])))
         fns = ["sum", "count", "min", "max", "mean", "first", "last", "size", "var", "std"]
@@ -355,9 +615,11 @@ def generate(ctx):
         if inp["by"] == "index":
             inp["index"] = [k % 4 for k in inp["c"]]
         yield "agg_spec", inp
-    ops = ["nunique", "idxmin", "idxmax", "std", "cov", "corr", "value_counts", "cumsum", "cumprod", "cumcount",
-           "transform", "shift", "ffill", "bfill", "apply", "apply_first", "median"]
+
+
+def _gen_cumulative(ctx):
     # cumulative operations need several partitions in which a group comes and goes
+    rng = ctx.rng
     for _ in range(ctx.n(40, 400)):
         inp = _rand_frame(rng, "int")
         n = len(inp["c"])
@@ -368,14 +630,41 @@ def generate(ctx):
             inp["keykind"] = "nakey"           # key 0 becomes NaN: a NaN-key group spanning several partitions
             inp["dropna"] = rng.choice([False, False, True, None])
         yield "misc", inp
-    for _ in range(ctx.n(70, 700)):
+
+
+def _gen_misc(ctx):
+    rng = ctx.rng
+    for _ in range(ctx.n(90, 900)):
         kk = rng.choice(["int", "int", "str", "cat", "nakey"])
         inp = _rand_frame(rng, kk)
-        inp["op"] = rng.choice(ops)
+        inp["op"] = rng.choice(MISC_OPS)
         _rand_cfg(rng, inp)
         if kk == "cat":
             inp["observed"] = rng.choice([True, False])
         if kk == "nakey":
             inp["dropna"] = rng.choice([True, False, None])
+        if rng.random() < 0.3:
+            # few groups, several partitions, empty partitions: groups span partitions, partitions without a group
+            n = len(inp["c"])
+            inp["c"] = [rng.randint(0, 2) for _ in range(n)]
+            inp["cuts"] = U.rand_cuts(rng, n, maxparts=5, p_empty=0.5)
         inp["periods"] = rng.choice([1, 2, -1])
         yield "misc", inp
+
+
+def _interleave(gens):
+    """weighted round robin over the streams, so that a deadline cuts all of them proportionally"""
+    gens = [(iter(g), w) for g, w in gens]
+    while gens:
+        for g, w in list(gens):
+            for _ in range(w):
+                try:
+                    yield next(g)
+                except StopIteration:
+                    gens = [x for x in gens if x[0] is not g]
+                    break
+
+
+def generate(ctx):
+    yield from _interleave([(_gen_agg_model(ctx), 3), (_gen_agg_keys(ctx), 1), (_gen_agg_spec(ctx), 1),
+                            (_gen_cumulative(ctx), 1), (_gen_misc(ctx), 2)])
